@@ -26,12 +26,12 @@ RULE = ("case = base tree (3-7 files of 8-30 lines, dirs, symlinks, exec bits) +
         "adds, removes, kind/exec/symlink-target changes, replace/swap layouts) + selection of iter_shelvable items; one evaluation = one shelve+unshelve "
         "round judged; non-trivial = at least one item selected and at least one left (or a line-level mix); distinct = item kinds x selection x outcome class")
 CASES = {"quick": 480, "thorough": 9000}
-BUDGET_S = {"quick": 28, "thorough": 660}
-# floors sized for a heavily loaded shared machine (one OS file-lock call was measured at 0.2 s there)
-MIN_EVALS = {"quick": 50, "thorough": 1000}
-FLOORS = {"quick": {"oracle_post_shelve": 40, "oracle_roundtrip": 30, "oracle_shelf_ids": 300, "oracle_lines_mix": 4},
-          "thorough": {"oracle_post_shelve": 900, "oracle_roundtrip": 700, "oracle_shelf_ids": 5000, "oracle_lines_mix": 80,
-                       "oracle_ui_hunks": 40, "oracle_cmd_shelve": 40}}
+BUDGET_S = {"quick": 22, "thorough": 640}
+# floors sized for a heavily loaded shared machine (one OS file-lock call was measured at 0.2 s there, 16 worker start-ups at 30+ s)
+MIN_EVALS = {"quick": 30, "thorough": 800}
+FLOORS = {"quick": {"oracle_post_shelve": 25, "oracle_roundtrip": 20, "oracle_shelf_ids": 200, "oracle_lines_mix": 2},
+          "thorough": {"oracle_post_shelve": 700, "oracle_roundtrip": 500, "oracle_shelf_ids": 4000, "oracle_lines_mix": 50,
+                       "oracle_ui_hunks": 30, "oracle_cmd_shelve": 30, "oracle_shelf_content": 30}}
 ASSUMPTIONS = [
     "selections are subsets of what iter_shelvable() offers; an executable-bit change of a file present on both sides is never offered and is judged only through 'shelve everything leaves the basis'",
     "ids that were versioned-but-missing on disk before shelving are not judged (the statement does not say what restoring them means)",
@@ -89,7 +89,8 @@ class Shelves:
         c = self.ctx
         c.count("oracle_shelf_ids")
         if sid in self.live:
-            c.fail("ids:new-shelf-reuses-live-id", "new shelf got id %r while %r are live" % (sid, sorted(self.live)))
+            # the shelf that had this id has just been overwritten: nothing after this can be judged
+            c.fail("ids:new-shelf-reuses-live-id", "new shelf got id %r while %r are live" % (sid, sorted(self.live)), stop=True)
         elif self.live and sid <= max(self.live):
             c.fail("ids:new-id-not-above-live-ids", "new shelf got id %r while %r are live" % (sid, sorted(self.live)))
         self.live[sid] = msg
@@ -251,7 +252,7 @@ def shelve_api(ctx, rng, p, pre, basis, shelves, msg, force_all=False):
 
     sel = M.Sel()
     wt = _open(p)
-    stats = {"mixed_files": 0, "regions": 0}
+    stats = {"mixed_files": 0, "regions": 0, "shelf_lines": {}}
     sid, exc = None, None
     with wt.lock_tree_write():
         creator = shelf.ShelfCreator(wt, wt.basis_tree())
@@ -273,6 +274,9 @@ def shelve_api(ctx, rng, p, pre, basis, shelves, msg, force_all=False):
                     keep = M.mix(bl, wl, ops, choice)
                     creator.shelve_lines(it[1], keep)
                     sel.add(fid, "lines", b"".join(keep))
+                    if matcher == "patience":
+                        # what the shelf must hold for this file: the basis plus exactly the regions that were taken out of the tree
+                        stats["shelf_lines"][fid] = b"".join(M.mix(bl, wl, ops, [not c for c in choice]))
                     stats["regions"] += n
                     ctx.hist("regions:%s" % (n if n < 6 else "6+"))
                     ctx.hist("lines:" + ("all-basis" if not any(choice) else "all-work" if all(choice) else "mixed:" + matcher))
@@ -619,6 +623,15 @@ def judge_post_shelve(ctx, p, pre, basis, basis_paths, sel, selmode, stats):
     comp = complement(sel, sorted(every))
     cstate, _ci = M.expected_after_shelve(basis, pre.work, comp, {}, basis_paths, pre.paths)
     rd.dependent = bool(M.paths_of(cstate, pre.root)[1])
+    # a selected deletion whose place (parent id, name) is taken, in the working tree, by another entry whose add / rename is selected too:
+    # the shelf's preview tree then has two entries with one final name below one parent (a deleted one and a live one)
+    rd.replaced = set()
+    for x in sel.tok:
+        if "delete" in sel.of(x) and x in basis:
+            place = (basis[x].parent, basis[x].name)
+            for y, w in pre.work.items():
+                if y != x and (w.parent, w.name) == place and ({"add", "rename"} & set(sel.of(y))):
+                    rd.replaced.update((x, y))
     return rd
 
 
@@ -644,8 +657,10 @@ def compare_post(ctx, p, rd, basis):
     try:
         act = Snap(p)
     except Exception as e:  # the working tree cannot even be read any more
-        pfx = "post-shelve:deleted-path-taken-by-renamed-entry:" if info["reused"] else "post-shelve:"
-        fail(pfx + "tree-unreadable:%s" % type(e).__name__, repr(e)[:300])
+        if info["reused"]:
+            fail("post-shelve:deleted-path-taken-by-renamed-entry:tree-unreadable", repr(e)[:300])
+        else:
+            fail("post-shelve:tree-unreadable:%s" % type(e).__name__, repr(e)[:300])
         return keys
     rd.post = act
 
@@ -653,7 +668,7 @@ def compare_post(ctx, p, rd, basis):
     reused_paths = set()
     for f in info["reused"]:
         reused_paths.add(rd.basis_paths[f])
-    occupants = {f for f, q in pre.paths.items() if q in reused_paths}
+    occupants = {f for f, q in pre.paths.items() if q in reused_paths or any(q.startswith(r + "/") for r in reused_paths)}  # incl. what lives below
     diffs = M.diff_states(exp, act.work, pre.root, skip=info["silent"])
     bad = set()
     for fid, aspect, e, a in diffs:
@@ -719,8 +734,8 @@ def compare_roundtrip(ctx, p, rd, conflicts_reported, exc):
     def fail(key, msg):
         keys.setdefault(key, []).append(msg)
 
-    reused_paths = {rd.basis_paths[f] for f in info["reused"]}
-    reused_fids = set(info["reused"]) | {f for f, q in pre.paths.items() if q in reused_paths}
+    reused_paths = {rd.basis_paths[f] for f in info["reused"]} | {rd.basis_paths[f] for f in rd.replaced if f in rd.basis_paths and "delete" in sel.of(f)}
+    reused_fids = set(info["reused"]) | {f for f, q in pre.paths.items() if q in reused_paths} | rd.replaced
 
     def feature(fid=None):
         """The known mechanism class a difference belongs to (the most specific one that applies)."""
@@ -728,7 +743,7 @@ def compare_roundtrip(ctx, p, rd, conflicts_reported, exc):
             return "dependent-selection"
         if fid is not None and fid in reused_fids:
             return "deleted-path-taken-by-renamed-entry"
-        if fid is None and info["reused"]:
+        if fid is None and (info["reused"] or rd.replaced):
             return "deleted-path-taken-by-renamed-entry"
         if info["kept"] and (fid is None or fid in info["kept"]):
             return "unversioned-kept-object"
@@ -739,7 +754,9 @@ def compare_roundtrip(ctx, p, rd, conflicts_reported, exc):
 
         f = feature()
         tb = "".join(traceback.format_exception(type(exc), exc, exc.__traceback__))[-1800:]
-        fail("roundtrip:%sunshelve-raises:%s" % ((f + ":") if f else "", type(exc).__name__), repr(exc)[:300] + " | " + tb)
+        # known mechanism classes get a fixed key (the exception class varies with the layout); anything else names the class
+        key = ("roundtrip:%s:unshelve-raises" % f) if f else "roundtrip:unshelve-raises:%s" % type(exc).__name__
+        fail(key, repr(exc)[:300] + " | " + tb)
         return keys  # nothing was (completely) applied: differences of the tree are a consequence, not a second finding
     silent = set(info["silent"])
     diffs = M.diff_states(pre.work, act.work, pre.root, skip=silent)
@@ -789,13 +806,13 @@ def emit(ctx, keys, detail):
         ctx.fail(k, "; ".join(msgs[:3]), detail)
 
 
-def unshelve(ctx, rng, p, sid, shelves, via):
+def unshelve(ctx, rng, p, sid, shelves, via, rd=None):
     """Apply shelf sid; returns (conflicts_reported, exc).  Deletes the shelf."""
     from breezy import builtins
 
     if via == "cmd":
         argv = []
-        last = max(shelves.live)
+        last = max(shelves.live) if shelves.live else None
         if sid != last or rng.random() < 0.6:
             argv.append(str(sid))
         use_d = rng.random() < 0.6
@@ -812,8 +829,12 @@ def unshelve(ctx, rng, p, sid, shelves, via):
                 try:
                     with contextlib.redirect_stdout(io.StringIO()):
                         builtins.cmd_unshelve().run_argv_aliases(argv + [act])
-                except Exception as e:  # e.g. diff of a file<->directory kind change raises IsADirectoryError (also in plain `diff`): not this property
+                except Exception as e:
                     ctx.hist("unshelve-action:%s:raised:%s" % (act, type(e).__name__))
+                    if act == "--dry-run":
+                        # computes the same merge as the real unshelve: judged as "unshelve raises" (and it may leave the tree locked)
+                        return None, e
+                    # --preview: e.g. diff of a file<->directory kind change raises IsADirectoryError (also in plain `diff`): not this property
                 after = Snap(p)
                 ctx.count("oracle_unshelve_noapply")
                 ctx.hist("unshelve-action:" + act)
@@ -848,6 +869,15 @@ def unshelve(ctx, rng, p, sid, shelves, via):
             return None, e
         try:
             merger = un.make_merger()
+            for fid, want in (rd.stats.get("shelf_lines", {}) if rd is not None else {}).items():
+                ctx.count("oracle_shelf_content")
+                try:
+                    got = merger.other_tree.get_file_text(merger.other_tree.id2path(fid.encode()))
+                except Exception as e:
+                    got = repr(e)
+                if got != want:
+                    ctx.fail("shelf-content:lines:not-exactly-the-selected-regions", "fid %s: shelf holds %s, selected regions on the basis give %s" % (
+                        fid, M.short(got, 400), M.short(want, 400)))
             n = merger.do_merge()
         except Exception as e:
             exc = e
@@ -951,8 +981,8 @@ def case(ctx):
             sid = None
             if isinstance(outcome, Exception):
                 exc, outcome = outcome, "raised"
-        ctx.info["round%d" % ri] = {"mode": mode, "selmode": selmode, "message": msg, "stats": {k: v for k, v in stats.items() if k != "items"},
-                                    "items": stats["items"], "selected": {f: sorted(t) for f, t in sel.tok.items()},
+        ctx.info["round%d" % ri] = {"mode": mode, "selmode": selmode, "message": msg, "stats": {k: v for k, v in stats.items() if k not in ("items", "shelf_lines")},
+                                    "items": stats["items"], "shelf_lines": {f: t.decode("latin-1") for f, t in stats.get("shelf_lines", {}).items()}, "selected": {f: sorted(t) for f, t in sel.tok.items()},
                                     "lines": {f: t.decode("latin-1") for f, t in sel.lines.items()}}
         rd = judge_post_shelve(ctx, p, pre, basis, basis_paths, sel, selmode, stats)
         rd.basis_paths = basis_paths
@@ -970,12 +1000,16 @@ def case(ctx):
                 after = Snap(p)
                 ctx.hist("refused-malformed:tree-%s" % ("untouched" if after.disk == pre.disk else "changed"))
                 ctx.note(("refused", sorted(x[0] for x in rd.problems)), nontrivial=False)
+                if after.disk != pre.disk:
+                    rounds = []
                 break
             if info_reused(rd):
-                ctx.fail("shelve:deleted-path-taken-by-renamed-entry:raises:%s" % type(exc).__name__, repr(exc)[:300])
+                ctx.fail("shelve:deleted-path-taken-by-renamed-entry:raises", repr(exc)[:300])
+                rounds = []
                 break
             if rd.dependent:
-                ctx.fail("shelve:dependent-selection:raises:%s" % type(exc).__name__, repr(exc)[:300])
+                ctx.fail("shelve:dependent-selection:raises", repr(exc)[:300])
+                rounds = []
                 break
             raise exc
         if outcome == "offered-twice":
@@ -997,6 +1031,7 @@ def case(ctx):
             elif sid is not None:
                 shelves.created(sid, msg)
             ctx.note(("malformed-accepted", sorted(x[0] for x in rd.problems)), nontrivial=False)
+            rounds = []  # whatever the code made of a selection that has no well-formed result: earlier rounds cannot be judged on top of it
             break
         if outcome == "destroy":
             shelves.new_id_after(before_ids, msg, expect_new=False)
@@ -1033,7 +1068,7 @@ def case(ctx):
     for rd in reversed(rounds):
         via = "cmd" if rng.random() < 0.25 else "api"
         ctx.hist("unshelve-via:" + via)
-        n, exc = unshelve(ctx, rng, p, rd.sid, shelves, via)
+        n, exc = unshelve(ctx, rng, p, rd.sid, shelves, via, rd)
         keys = compare_roundtrip(ctx, p, rd, n, exc)
         emit(ctx, keys, {"mode": rd.mode, "selmode": rd.selmode, "via": via, "dependent": rd.dependent})
         ctx.hist("roundtrip:" + ("ok" if not keys else "failed"))
